@@ -167,7 +167,7 @@ def build():
                         ctx.check(f"outcome[{bs.name},{basis.name},post={post}]", got == want)
     R.add("measure-directly[post-processing table]", kind="table", samples=1)(measure_table)
 
-    def mk_measure_e2e(number, expect):
+    def mk_measure_e2e(number, expect, basis="Z"):
         def f(ctx):
             from netqasm.qlink_compat import Basis, LinkLayerOKTypeM
             sock = EPRSocket("Bob")
@@ -183,7 +183,7 @@ def build():
                         return
                     for key, q in table_entries(ex._epr_recv_requests):
                         for i in range(number):
-                            ctx.call(ex._handle_epr_response, LinkLayerOKTypeM(type=ReturnType.OK_M, measurement_outcome=raws[i], measurement_basis=Basis.Z, directionality_flag=1,
+                            ctx.call(ex._handle_epr_response, LinkLayerOKTypeM(type=ReturnType.OK_M, measurement_outcome=raws[i], measurement_basis=Basis[basis], directionality_flag=1,
                                                                               sequence_number=i, purpose_id=key[1], remote_node_id=key[0], bell_state=bells[i]))
                 drive(ctx, ex, sub, on_wait)
             conn.runner = run
@@ -191,9 +191,12 @@ def build():
             ctx.call(conn.flush)
             for i in range(number):
                 got = ctx.getattr(res[i], "measurement_outcome")
-                flip = ctx.or_(ctx.eq(bells[i], BellState.PSI_PLUS), ctx.eq(bells[i], BellState.PSI_MINUS)) if expect else False
+                # both nodes measured in ``basis`` (the link layer reports it with each pair): Phi+ statistics need a flip for the Bell states
+                # whose Pauli error anticommutes with that basis
+                FLIP = {"Z": (BellState.PSI_PLUS, BellState.PSI_MINUS), "X": (BellState.PHI_MINUS, BellState.PSI_MINUS), "Y": (BellState.PHI_MINUS, BellState.PSI_PLUS)}[basis]
+                flip = ctx.or_(ctx.eq(bells[i], FLIP[0]), ctx.eq(bells[i], FLIP[1])) if expect else False
                 want_flipped = ctx.sub(1, raws[i])
-                ctx.check(f"pair[{i}]: outcome post-processed with ITS OWN Bell state (Z basis: flipped iff Psi+/-)",
+                ctx.check(f"pair[{i}]: outcome post-processed with ITS OWN Bell state ({basis} basis)" if basis != "Z" else f"pair[{i}]: outcome post-processed with ITS OWN Bell state (Z basis: flipped iff Psi+/-)",
                           ctx.and_(ctx.implies(flip, ctx.eq(got, want_flipped)), ctx.implies(ctx.not_(flip), ctx.eq(got, raws[i]))))
                 ctx.check(f"pair[{i}]: raw outcome available unprocessed", ctx.eq(ctx.call(int, res[i].raw_measurement_outcome), raws[i]))
         return f
@@ -233,6 +236,8 @@ def build():
     for number in (1, 2, 3):
         R.add(f"measure-directly[recv_measure, {number} pairs]", kind="lia", samples=20, max_paths=4000, thorough_only=(number >= 3))(mk_measure_e2e(number, True))
     R.add("measure-directly[recv_measure, expectation off]", kind="lia", samples=20, max_paths=400)(mk_measure_e2e(2, False))
+    for basis in ("X", "Y"):
+        R.add(f"measure-directly[recv_measure, pairs measured in the {basis} basis]", kind="lia", samples=20, max_paths=4000)(mk_measure_e2e(1, True, basis))
 
     def canary(ctx):
         f = mk_corr("recv_keep", "generic", 1, False, 0)
